@@ -19,10 +19,27 @@ def flatten(d, prefix=""):
     return out
 
 
-def compare(a, b, rtol=1e-6, atol=1e-8, skip=()):
-    """Compare two flattened result dicts; returns list of (key, a, b) that differ (incl. missing keys)."""
+def _load_class(k):
+    """'F' / 'M' / 'C' for force, moment and coefficient entries of a solve_forces-like dictionary, else None"""
+    for part in reversed(k.split("/")):
+        if part and part != "total" and not part.endswith(("_left", "_right")):
+            return part[0] if part[0] in "FMC" and (len(part) == 2 or "_" in part or part in ("FL", "FD", "FS", "CL", "CD", "CS")) else None
+    return None
+
+
+def compare(a, b, rtol=1e-6, atol=1e-8, skip=(), scale_atol=0.0):
+    """Compare two flattened result dicts; returns list of (key, a, b) that differ (incl. missing keys).
+    scale_atol adds an absolute tolerance relative to the largest force / moment / coefficient in the dictionaries, so that
+    components that are small only through cancellation are compared at the accuracy of the loads they are differences of."""
     fa, fb = flatten(a), flatten(b)
     bad = []
+    cls_max = {}
+    if scale_atol:
+        for f in (fa, fb):
+            for k, v in f.items():
+                c = _load_class(k)
+                if c and isinstance(v, (int, float, np.floating)) and math.isfinite(float(v)):
+                    cls_max[c] = max(cls_max.get(c, 0.0), abs(float(v)))
     for k in sorted(set(fa) | set(fb)):
         if any(s in k for s in skip):
             continue
@@ -34,7 +51,7 @@ def compare(a, b, rtol=1e-6, atol=1e-8, skip=()):
             x, y = float(x), float(y)
             if x != x and y != y:
                 continue
-            if not (abs(x - y) <= atol + rtol * max(abs(x), abs(y))):
+            if not (abs(x - y) <= atol + rtol * max(abs(x), abs(y)) + scale_atol * cls_max.get(_load_class(k), 0.0)):
                 bad.append((k, x, y))
         elif x != y:
             bad.append((k, x, y))
